@@ -12,7 +12,8 @@ LEAN_MODULES = ['Proofs.C19']
 REQUIRED = ['C19.ensure1d_accepts_iff', 'C19.ensure1d_rejects_iff', 'C19.ensure1d_layout_insensitive',
             'C19.ensureVector_accepts_iff', 'C19.ensureVector_rejects_iff', 'C19.ensure2d_spec',
             'C19.ensureEqualDims_iff', 'C19.ensureEqualDims_axis_iff', 'C19.ensure_preserves_size',
-            'C19.ensure1d_two_columns_current', 'C19.ensureVector_nd_current']
+            'C19.ensureAll_iff', 'C19.ensure1d_two_columns_current', 'C19.ensure1d_one_sample_current',
+            'C19.ensureVector_nd_current']
 TRUSTED = [
     'PARTIAL (instance-only): that no routine modifies its input arrays / option dictionaries, that accepted layouts give '
     'bitwise identical values, that read-only arrays are accepted and that a repeated deterministic call is identical are facts '
@@ -341,7 +342,7 @@ class EntryPoints(Stream):
     def generate(self, rng, tier):
         names = list(eps())
         combos = [(3, 256), (11, 128), (29, 400)]
-        for _ in range(12 if tier == 'thorough' else 2):
+        for _ in range(17 if tier == 'thorough' else 4):
             combos.append((rng.randint(100, 10 ** 6), rng.choice([96, 160, 200, 320, 512])))
         for seed, n in combos:
             for nm in names:
